@@ -1325,6 +1325,9 @@ class Converter:
             # It must be something like `if <condition_name>: break`.
             # This instruction must be the last of the loop body.
             if isinstance(s, ast.If) and len(s.body) == 1 and isinstance(s.body[0], ast.Break):
+                if s.orelse:
+                    # The else-branch would otherwise be dropped silently.
+                    self._fail(s, "An else-branch of 'if <condition>: break' is not supported.")
                 if not isinstance(s.test, ast.Name):
                     self._fail(
                         s,
